@@ -2,12 +2,15 @@
 
 Decides (default features; thorough tier also async-std): (R20.1) in both accept tasks the future returned by the
 per-connection callback is passed to spawn and never awaited by the accept loop, whose only suspension points
-are its select over accept()/stop (IPC: plus the unlink after the loop); (R20.2) the callback reports a failed
-handshake with the non-blocking try_send(SocketEvent::AcceptFailed(..)) and never awaits the monitor channel
-(C04 R04.5 re-evaluated); (R20.3) a peer is registered only after both exchanges succeeded, including the
+are its select over accept()/stop (IPC: plus the unlink after the loop), and the accept task returns only after the
+stop arm fired (a failed accept() never ends the listener); (R20.2) the callback reports a failed
+handshake with the non-blocking try_send(SocketEvent::AcceptFailed(..)) to the monitor looked up *after* the handshake
+finished, and never awaits the monitor channel (C04 R04.5 re-evaluated); (R20.3) a peer is registered only after both exchanges succeeded, including the
 compatibility check (C04 R04.1 re-evaluated), so a failed handshake leaves the peer set unchanged; (R20.4) at
 every suspension point of greet_exchange, ready_exchange, util::peer_connected and the six peer_connected impls
-no parking_lot guard is held (a stalled peer cannot hold a socket-wide lock); (R20.5) garbage during the
+no lock guard of any kind is held - parking_lot guards on the path, and any MutexGuard/RwLock*Guard-typed local (an async
+mutex guard is Send, the compiler does not object) that may be initialised where the coroutine suspends, including inside
+the private async helpers it awaits (a stalled peer cannot hold a socket-wide lock); (R20.5) garbage during the
 handshake is an error value, not a panic, so it *is* reported: the panic/allocation obligations of C03 are
 re-evaluated here. Does NOT decide observed latency classes."""
 from ..sym import show, walk_expr
@@ -45,6 +48,18 @@ def guards_at_yields(f, rep, b, label):
                     bad += 1
                     rep.bad("R20.4", "R20.4|%s|guard-across-await" % label,
                             "%s: a mutex guard taken at %s is still held at a suspension point: a peer that stalls there blocks everyone who needs that lock" % (label, b.loc(lev.bb)), b.loc(ev.bb))
+    # any lock guard, of any crate (an async mutex guard is Send, so the compiler does not object to holding it across an await),
+    # that may still be initialised where the coroutine suspends - including inside the private async helpers it awaits
+    def is_guard_ty(ty):
+        return any(g in ty for g in ("MutexGuard", "RwLockReadGuard", "RwLockWriteGuard", "RwLockUpgradableReadGuard", "SemaphorePermit")) and not ty.startswith("&")
+    for k in pathq.scope(f, b, allow_async=True):
+        if not k.j.get("coroutine_kind"):
+            continue
+        for (ybb, l, dbb) in k.guard_locals_at_yields(is_guard_ty):
+            bad += 1
+            rep.bad("R20.4", "R20.4|%s|guard-across-await" % label,
+                    "%s: a lock guard (%s, taken at %s) may still be held at a suspension point: a peer that stalls there blocks everyone who needs that lock"
+                    % (label, k.j["locals"][l]["ty"][:60], k.loc(dbb)), k.loc(ybb))
     if not bad:
         rep.ok("R20.4", "R20.4|%s|guard-across-await" % label, "%s: no mutex guard is held at any of its suspension points (%d yield events on paths)" % (label, ny), b.loc())
     return ny
